@@ -58,7 +58,7 @@ PROPERTY_MODULES = {
     'C33': ['contracts.c33_vector'],
     'C09': ['contracts.c09_solvers'],
     'C20': ['contracts.c20_scaling'],
-    'C21': ['contracts.c21_scipy'],
+    'C21': ['contracts.c21_scipy', 'contracts.c20_scaling'],
     'C22': ['contracts.c22_conviol'],
     'C27': ['contracts.c27_options'],
     'C13': ['contracts.c13_checks'],
